@@ -794,7 +794,7 @@ func (r *Reconciler) evictPod(ctx context.Context, job *sev1alpha1.PodMigrationJ
 	pod := &corev1.Pod{}
 	podNamespacedName := types.NamespacedName{Namespace: job.Spec.PodRef.Namespace, Name: job.Spec.PodRef.Name}
 	err := r.Client.Get(ctx, podNamespacedName, pod)
-	if errors.IsNotFound(err) || (err == nil && cond != nil && job.Spec.PodRef.UID != "" && job.Spec.PodRef.UID != pod.UID) {
+	if errors.IsNotFound(err) || (err == nil && job.Spec.PodRef.UID != "" && job.Spec.PodRef.UID != pod.UID) {
 		if job.Status.Status != string(sev1alpha1.PodMigrationJobConditionEviction) {
 			err = r.abortJobByMissingPod(ctx, job, podNamespacedName)
 			return false, reconcile.Result{}, err
